@@ -3,12 +3,24 @@
    grammar is related to (both decidable, evaluated per grammar). *)
 From Coq Require Import List String NArith Bool Arith Lia.
 From Pegen Require Import Base.StrUtil Base.Values Grammar.Ast Runtime.Tokenizer Sem.Peg Proofs.PegProofs
-  Gen.Gen Runtime.Exec Proofs.FlatSem Proofs.IrSem Proofs.Desugar.
+  Gen.Gen Runtime.Exec Sem.PegEval Proofs.FlatSem Proofs.IrSem Proofs.Desugar.
 Import ListNotations.
 Open Scope string_scope.
 
 Definition reads_back_as (rsS : list rule) (M : ir_module) : bool :=
-  ir_ok M && rules_rel_b rsS (dec_module1 M) && forallb (fun r => plain M (rname r)) rsS.
+  ir_ok M && no_explicit M && rules_rel_b rsS (dec_module1 M) (fun _ _ => false) && forallb (fun r => plain M (rname r)) rsS.
+
+(* the read-back side's interpretation of actions and naming of items (what Proofs/IrSem.v asks for) *)
+Definition aevalP0 (aeval : string -> env -> option value) (a : alt) (vals : list value) (e : list (string * value)) (s p : nat) : option value :=
+  match alt_action a with Some ac => aeval (atext ac) e | None => None end.
+Definition names0 (a : alt) (k : nat) : option string := match nth_error (alt_items a) k with Some n => ni_name n | None => None end.
+
+(* without explicit actions in plain methods the hypotheses about them are void *)
+Lemma no_explicit_void M a : no_explicit M = true -> plain_alt M a -> a_explicit a = true -> False.
+Proof.
+  intros H (m & Hm & Hl & Hg & Ha) Hx. unfold no_explicit in H. rewrite forallb_forall in H. specialize (H m Hm).
+  rewrite Hl, Hg in H. cbn [is_some orb] in H. rewrite forallb_forall in H. specialize (H a Ha). rewrite Hx in H. discriminate H.
+Qed.
 
 Theorem run_agrees_with_source K toks M aeval ex td aevalP nameS fm rsS :
   reads_back_as rsS M = true ->
@@ -23,14 +35,17 @@ Theorem run_agrees_with_source K toks M aeval ex td aevalP nameS fm rsS :
               agrees v st st' res.
 Proof.
   intros Hrb Ha Hg Hl Hk fuel n st v st' Hn Hrun. unfold reads_back_as in Hrb.
-  apply andb_prop in Hrb as [Hrb Hpl]. apply andb_prop in Hrb as [Hok Hrel].
-  pose proof (ir_run_agrees K toks M aeval ex td aevalP (fun _ _ => None) (fun _ => fm) Hok Ha Hg Hl Hk fuel n st v st' Hrun) as HS.
+  apply andb_prop in Hrb as [Hrb Hpl]. apply andb_prop in Hrb as [Hrb Hrel]. apply andb_prop in Hrb as [Hok Hne].
+  pose proof (ir_run_agrees K toks M aeval ex td (aevalP0 aeval) names0 (fun _ => fm) Hok Ha Hg
+                (fun alt ac vals env s e H => ltac:(unfold aevalP0; rewrite H; reflexivity)) (fun a k => eq_refl)
+                (fun a Hp Hx => False_rect _ (no_explicit_void M a Hne Hp Hx)) (fun a Hp Hx => False_rect _ (no_explicit_void M a Hne Hp Hx))
+                Hl Hk fuel n st v st' Hrun) as HS.
   destruct (find_rule rsS n) as [r|] eqn:Er; [|contradiction]. destruct (find_rule_in _ _ _ Er) as [Hin Hname].
   rewrite forallb_forall in Hpl. specialize (Hpl r Hin). rewrite Hname in Hpl. unfold plain in Hpl. unfold Spec in HS.
   destruct (find_meth M n) as [m|]; [|discriminate Hpl]. destruct (m_loop m); [discriminate Hpl|].
   destruct HS as (res & Hp & Hag). exists res. split; [|exact Hag].
-  refine (proj1 (desugar_sound K rsS (dec_module1 M) toks (i_keywords M) (i_soft_keywords M) aevalP nameS (fun _ _ => None) fm
-            (rules_rel_sound _ _ Hrel)) _ _ _ Hp _ _).
+  refine (proj1 (desugar_sound K rsS (dec_module1 M) toks (i_keywords M) (i_soft_keywords M) aevalP (aevalP0 aeval) nameS names0 fm
+            (fun a a' => false = true) (rules_rel_sound _ _ _ Hrel) (fun a a' H => ltac:(discriminate H))) _ _ _ Hp _ _).
   apply R_core. apply C_name. intros E. rewrite Er in E. discriminate E.
 Qed.
 
@@ -74,14 +89,17 @@ Theorem run_raise_agrees_with_source K toks M aeval ex td aevalP nameS fm rsS :
   exists msg q, peg_item K rsS toks (i_keywords M) (i_soft_keywords M) aevalP nameS (fun _ => fm) (NameLeaf n) (pos st) (PErr msg q).
 Proof.
   intros Hrb Ha Hg Hl Hk fuel n st ea t st' Hn Hrun. unfold reads_back_as in Hrb.
-  apply andb_prop in Hrb as [Hrb Hpl]. apply andb_prop in Hrb as [Hok Hrel].
-  pose proof (ir_run_raises K toks M aeval ex td aevalP (fun _ _ => None) (fun _ => fm) Hok Ha Hg Hl Hk fuel n st ea t st' Hrun) as HS.
+  apply andb_prop in Hrb as [Hrb Hpl]. apply andb_prop in Hrb as [Hrb Hrel]. apply andb_prop in Hrb as [Hok Hne].
+  pose proof (ir_run_raises K toks M aeval ex td (aevalP0 aeval) names0 (fun _ => fm) Hok Ha Hg
+                (fun alt ac vals env s e H => ltac:(unfold aevalP0; rewrite H; reflexivity)) (fun a k => eq_refl)
+                (fun a Hp Hx => False_rect _ (no_explicit_void M a Hne Hp Hx)) (fun a Hp Hx => False_rect _ (no_explicit_void M a Hne Hp Hx))
+                Hl Hk fuel n st ea t st' Hrun) as HS.
   destruct (find_rule rsS n) as [r|] eqn:Er; [|contradiction]. destruct (find_rule_in _ _ _ Er) as [Hin Hname].
   rewrite forallb_forall in Hpl. specialize (Hpl r Hin). rewrite Hname in Hpl. unfold plain in Hpl. unfold SpecR in HS.
   destruct (find_meth M n) as [m|]; [|discriminate Hpl]. destruct (m_loop m); [discriminate Hpl|].
   destruct HS as (msg & q & Hp). exists msg, q.
-  refine (proj1 (desugar_sound K rsS (dec_module1 M) toks (i_keywords M) (i_soft_keywords M) aevalP nameS (fun _ _ => None) fm
-            (rules_rel_sound _ _ Hrel)) _ _ _ Hp _ _).
+  refine (proj1 (desugar_sound K rsS (dec_module1 M) toks (i_keywords M) (i_soft_keywords M) aevalP (aevalP0 aeval) nameS names0 fm
+            (fun a a' => false = true) (rules_rel_sound _ _ _ Hrel) (fun a a' H => ltac:(discriminate H))) _ _ _ Hp _ _).
   apply R_core. apply C_name. intros E. rewrite Er in E. discriminate E.
 Qed.
 
@@ -127,4 +145,91 @@ Proof.
   destruct A1 as [[T1 ->]|[-> [-> Q1]]]; destruct A2 as [[T2 E2]|[-> [E2 Q2]]]; try discriminate E2.
   - injection E2 as -> ->. split; reflexivity.
   - split; [reflexivity|]. rewrite Q1, Q2. exact Hp.
+Qed.
+
+
+(* ---------- grammars WITH explicit actions ---------- *)
+(* The reference semantics' side: an action is its text after the generator's substitutions, evaluated by the same
+   evaluator in the environment of the alternative's items under the DOCUMENTED names (explicit names, default names
+   of leaves, _1, _2 ... for repeats; only the names the action uses are bound) -- Sem/PegEval.v's convention. *)
+Definition src_aeval (aeval : string -> env -> option value) (a : alt) (vals : list value) (e : list (string * value)) (s p : nat) : option value :=
+  match alt_action a with Some ac => aeval (subst_action (atext ac)) e | None => None end.
+Definition src_names (a : alt) (k : nat) : option string := nth k (bound_names (alt_items a) (action_used a) []) None.
+
+Definition ostr_eqb (x y : option string) : bool :=
+  match x, y with Some a, Some b => String.eqb a b | None, None => true | _, _ => false end.
+Lemma ostr_eqb_eq x y : ostr_eqb x y = true -> x = y.
+Proof. destruct x, y; cbn; try discriminate; [intros H; apply String.eqb_eq in H; congruence|reflexivity]. Qed.
+Lemma all2_ostr l : forall l', all2 ostr_eqb l l' = true -> l = l'.
+Proof.
+  induction l as [|x l IH]; intros [|y l'] H; cbn [all2] in H; try discriminate; [reflexivity|].
+  apply andb_prop in H as [H1 H2]. rewrite (ostr_eqb_eq _ _ H1), (IH _ H2). reflexivity.
+Qed.
+
+(* two alternatives that carry actions correspond: same text after substitution, same names at every position *)
+Definition act_b (a a' : alt) : bool :=
+  match alt_action a, alt_action a' with
+  | Some ac, Some ac' =>
+      negb (String.eqb (atext ac) "") && String.eqb (subst_action (atext ac)) (atext ac') &&
+      all2 ostr_eqb (bound_names (alt_items a) (action_used a) []) (map ni_name (alt_items a'))
+  | _, _ => false
+  end.
+
+Lemma names0_nth a k : names0 a k = nth k (map ni_name (alt_items a)) None.
+Proof.
+  unfold names0. generalize (alt_items a). intros l. revert k. induction l as [|n l IH]; intros [|k]; cbn; try reflexivity. apply IH.
+Qed.
+
+Lemma act_b_sound aeval a a' : act_b a a' = true ->
+  (forall vals env s e, src_aeval aeval a vals env s e = aevalP0 aeval a' vals env s e) /\ (forall k, src_names a k = names0 a' k) /\
+  alt_action a <> None /\ alt_action a' <> None.
+Proof.
+  unfold act_b. destruct (alt_action a) as [ac|] eqn:Ea; [|discriminate]. destruct (alt_action a') as [ac'|] eqn:Ea'; [|discriminate].
+  intros H. apply andb_prop in H as [H H3]. apply andb_prop in H as [H1 H2]. apply String.eqb_eq in H2. apply all2_ostr in H3.
+  split; [|split; [|split; discriminate]].
+  - intros vals env s e. unfold src_aeval, aevalP0. rewrite Ea, Ea', H2. reflexivity.
+  - intros k. unfold src_names. rewrite names0_nth, H3. reflexivity.
+Qed.
+
+Definition reads_back_with_actions (rsS : list rule) (M : ir_module) : bool :=
+  ir_ok M && rules_rel_b rsS (dec_module1 M) act_b && forallb (fun r => plain M (rname r)) rsS.
+
+Theorem run_agrees_with_source_actions K toks M aeval ex td fm rsS :
+  reads_back_with_actions rsS M = true ->
+  (forall xs e vs, nodup_s xs = true -> Forall2 (fun x v => env_get e x = Some v) xs vs ->
+     aeval (default_text xs) e = Some (match vs with [v] => v | _ => VList vs end)) ->
+  (forall e v vs, env_get e "elem" = Some v -> env_get e "seq" = Some (VList vs) -> aeval "[elem] + seq" e = Some (VList (v :: vs))) ->
+  (forall a, plain_alt M a -> a_explicit a = true -> forall e1 e0,
+     (forall x, In x (conj_vars (a_conjs a)) -> env_get e1 x <> None) -> aeval (a_action a) (e1 ++ e0)%list = aeval (a_action a) e1) ->
+  (forall a, plain_alt M a -> a_explicit a = true -> forall e v, aeval (a_action a) e = Some v -> truthy v = true) ->
+  (forall s t, In t toks -> is_kind2 s = false -> expect_test K ex td s t = String.eqb (tstr t) s) ->
+  (forall s t, In t toks -> is_kind2 s = true -> expect_test K ex td s t = kind2_test K M s t) ->
+  forall fuel n st, find_rule rsS n <> None ->
+  (forall v st', run K toks false false M aeval ex td fuel n st = (Ok v, st') ->
+     exists res, peg_item K rsS toks (i_keywords M) (i_soft_keywords M) (src_aeval aeval) src_names (fun _ => fm) (NameLeaf n) (pos st) res /\
+                 agrees v st st' res) /\
+  (forall ea t st', run K toks false false M aeval ex td fuel n st = (Raise (XSyntaxError ea t), st') ->
+     exists msg q, peg_item K rsS toks (i_keywords M) (i_soft_keywords M) (src_aeval aeval) src_names (fun _ => fm) (NameLeaf n) (pos st) (PErr msg q)).
+Proof.
+  intros Hrb Ha Hg Hst Htr Hl Hk fuel n st Hn. unfold reads_back_with_actions in Hrb.
+  apply andb_prop in Hrb as [Hrb Hpl]. apply andb_prop in Hrb as [Hok Hrel].
+  destruct (find_rule rsS n) as [r|] eqn:Er; [|contradiction]. destruct (find_rule_in _ _ _ Er) as [Hin Hname].
+  rewrite forallb_forall in Hpl. specialize (Hpl r Hin). rewrite Hname in Hpl. unfold plain in Hpl.
+  assert (HD := desugar_sound K rsS (dec_module1 M) toks (i_keywords M) (i_soft_keywords M) (src_aeval aeval) (aevalP0 aeval) src_names names0 fm
+            (fun a a' => act_b a a' = true) (rules_rel_sound _ _ _ Hrel) (fun a a' H => act_b_sound aeval a a' H)).
+  assert (HR : Rel rsS (dec_module1 M) (fun a a' => act_b a a' = true) (NameLeaf n) (NameLeaf n)).
+  { apply R_core. apply C_name. intros E. rewrite Er in E. discriminate E. }
+  split.
+  - intros v st' Hrun.
+    pose proof (ir_run_agrees K toks M aeval ex td (aevalP0 aeval) names0 (fun _ => fm) Hok Ha Hg
+                  (fun alt ac vals env s e H => ltac:(unfold aevalP0; rewrite H; reflexivity)) (fun a k => eq_refl) Hst Htr
+                  Hl Hk fuel n st v st' Hrun) as HS.
+    unfold Spec in HS. destruct (find_meth M n) as [m|]; [|discriminate Hpl]. destruct (m_loop m); [discriminate Hpl|].
+    destruct HS as (res & Hp & Hag). exists res. split; [|exact Hag]. exact (proj1 HD _ _ _ Hp _ HR).
+  - intros ea t st' Hrun.
+    pose proof (ir_run_raises K toks M aeval ex td (aevalP0 aeval) names0 (fun _ => fm) Hok Ha Hg
+                  (fun alt ac vals env s e H => ltac:(unfold aevalP0; rewrite H; reflexivity)) (fun a k => eq_refl) Hst Htr
+                  Hl Hk fuel n st ea t st' Hrun) as HS.
+    unfold SpecR in HS. destruct (find_meth M n) as [m|]; [|discriminate Hpl]. destruct (m_loop m); [discriminate Hpl|].
+    destruct HS as (msg & q & Hp). exists msg, q. exact (proj1 HD _ _ _ Hp _ HR).
 Qed.
